@@ -32,6 +32,8 @@ type Case struct {
 	Cipher string        `json:"cipher,omitempty"` // a real cipher of x/cipher: Go-side only (no model lines)
 	UOff   int           `json:"uoff,omitempty"`   // search legs (split decoding): header and payload reach UnmarshalPacket at addresses UOff mod 16
 	Hist   *Hist         `json:"hist,omitempty"`   // search legs: a history on one codec instance (search.go); Pkts is unused then
+	Ld     []string      `json:"ld,omitempty"`     // payload SPECs of a WriteLenData/ReadLenData stream (lendata.go); Pkts is unused then
+	Crc    string        `json:"crc,omitempty"`    // a byte string for the direct CRC-32 comparison (lendata.go)
 }
 
 // failCtx is put in front of every failure text (the search legs name the step and packet of a history there).
@@ -580,6 +582,8 @@ func generate(r *hxlib.Run) {
 			refs[i] = uint32(i)
 		}
 		one(hxcodec.Pkt{V: 2, Thr: huge, Cmd: 8, Seq: 14, Typ: 1, Node: 8, Refs: refs, Body: "b:" + hxcodec.SpecGen(lim2-4*255+1, 10)}, "all")
+		// and the exact fit with the maximum number of references: body = limit - header - 4*255
+		one(hxcodec.Pkt{V: 2, Thr: huge, Cmd: 8, Seq: 15, Typ: 1, Node: 8, Refs: refs, Body: "b:" + hxcodec.SpecGen(lim2-4*255, 11)}, "n:65536")
 	}
 	if r.Thorough() {
 		for _, key := range []string{"", toyKey} {
@@ -649,6 +653,10 @@ func main() {
 		r.LoadReplay(&c)
 		if c.Hist != nil {
 			runHist(r, &c)
+		} else if c.Ld != nil {
+			runLd(r, &c)
+		} else if c.Crc != "" {
+			runCrc(r, &c)
 		} else {
 			runCase(r, &c)
 		}
@@ -660,5 +668,6 @@ func main() {
 		return
 	}
 	generate(r)
-	legs(r) // search.go (after the generators, so that the smallest failing case of a kind is recorded first): cheap legs in every tier, the 10-60 s ones from thorough on, the rest with -search only
+	generateLd(r, r.R) // lendata.go: the length-prefixed pair and the direct CRC-32 comparison
+	legs(r)            // search.go (after the generators, so that the smallest failing case of a kind is recorded first): cheap legs in every tier, the 10-60 s ones from thorough on, the rest with -search only
 }
